@@ -6,6 +6,6 @@ CONSTANTS
   RingSize = 2
   STRICT_REMOVE = FALSE
   WatchFile = TRUE
-  HELD = FALSE
+  HELD = TRUE
 INVARIANTS InOrder Correlated NoLoss
 CHECK_DEADLOCK FALSE
